@@ -55,6 +55,10 @@ fn drivers(spec: &Spec, max_period: usize) -> Vec<Box<dyn Fn(usize) -> f64 + Sen
         let a = 1.0 + 0.001 * i as f64;
         if pos { if i % 2 == 0 { a } else { 1.0 / a } } else if i % 2 == 0 { a } else { -a }
     }));
+    // a recurring jump whose square overflows (1e200 in f64, still finite input): an error path that
+    // returns early must release what the regular path releases. (Kept last: a view whose own finiteness
+    // assertion rejects such input is skipped from here on - that is C15's domain, not a memory matter.)
+    v.push(Box::new(move |i| if i % 5 == 3 { 1e200 } else { 1.0 + (i % 3) as f64 }));
     v
 }
 
